@@ -260,8 +260,14 @@ def run_frame_round_trip(mutate=None, prefixes=("C14.", "C05.")):
                 return 1.0
         dev = type("Dev", (), {"mesh": "MESH", "K0": K0(), "length_units": "um"})()
         sol = _sc.new_solution(LS["Solution"], dev, "mT", "uA")
+        st0_ = instrument.module_state(LS)
         for f in (0, 2, 1, 2):
             sol.load_tdgl_data(f, h5file=dh.output_file)
+            # frame condition: what a solution holds is a function of the file it reads NOW - loading a frame leaves nothing behind at module level
+            # (memo tables keyed by path / frame range ...) that a later load, of this or of another file at the same path, could pick up.  Candidate.
+            ch_ = instrument.module_state_changes(st0_, instrument.module_state(LS))
+            for pf_ in ("C14", "C05"):
+                check(f"{pf_}.solution_reader.loading_a_frame_leaves_no_module_state_behind", z3.BoolVal(not ch_), note=f"module-level state of tdgl.solution.solution changed: {ch_}", weak=True)
             state, data = frames[f]
             want = dict(fixed)
             want.update(data)
